@@ -255,6 +255,18 @@ def gen_cases(ctx):
             cases.append(c)
     for rep in range(ctx.n(1, 4)):
         cases += gen_big(rng)
+    # value level: down/up-sampling kernels against the C loops of the model, every width, both ISAs,
+    # rows exactly as long as alloc_sarray pads them and ending at a PROT_NONE page
+    for rep in range(ctx.n(1, 6)):
+        for kname, lo in (("ds1", 1), ("ds2", 1), ("fu1", 3), ("fu2", 3)):
+            for isa in ("sse2", "avx2"):
+                for n in list(range(lo, 131)) + [rng.range(131, 700) for _ in range(3)]:
+                    rows = []
+                    for i in range(3):
+                        mode = rng.below(4)
+                        b = rng.bytes(n) if mode else bytes([rng.choice([0, 255, 254, 1])] * n)
+                        rows.append("r%d=%s" % (i, b.hex()))
+                    cases.append("kv k=%s isa=%s n=%d %s" % (kname, isa, n, " ".join(rows)))
     # the SIMD kernels themselves, every width, both guard sides
     for isa in ("sse2", "avx2"):
         for ps in (3, 4):
@@ -293,7 +305,7 @@ def documented_rows(line):
     kind = line.split()[0]
     api = k.get("api", "")
     out = {}
-    if kind in ("rs", "big"):
+    if kind in ("rs", "big", "kv"):
         return out
     if kind == "hist":
         x_, y_, w_, h_ = stored_region(k)
@@ -407,6 +419,10 @@ def describe(line, level):
     kind = line.split()[0]
     if kind == "kern":
         return "SIMD kernel %s/%s, %s columns, guard side %s" % (k.get("k"), k.get("fn"), k.get("n"), "high" if k.get("side") == "1" else "low")
+    if kind == "kv":
+        return "SIMD kernel %s (%s), width %s, rows as padded by alloc_sarray and ending at a guard page" % (
+            {"ds1": "h2v1_downsample", "ds2": "h2v2_downsample", "fu1": "h2v1_fancy_upsample", "fu2": "h2v2_fancy_upsample"}.get(k.get("k")),
+            k.get("isa"), k.get("n"))
     if kind == "hist":
         return ("one handle: tj3DecompressHeader(%sx%s subsamp=%s %s-bit), tj3SetScalingFactor(%s/%s), tj3SetCroppingRegion({%s,%s,%s,%s}), "
                 "tj3SetScalingFactor(%s/%s), %stj3Decompress%s(pixelFormat=%s pitch=w*ps%s bottomUp=%s fastUpsample=%s) guard=%s simd=%s" % (
@@ -625,7 +641,7 @@ def run(ctx):
         for i, line in enumerate(cases):
             impl = lines[i]
             kind = line.split()[0]
-            if kind == "kern" and name != "default":
+            if kind in ("kern", "kv") and name != "default":
                 continue        # kernels are called directly: independent of the dispatch level
             k = kvs(line)
             bad = judge(ctx, line, name, impl)
@@ -645,6 +661,23 @@ def run(ctx):
                 ctx.sample({"case": line, "impl": impl[:300]})
     if not ctx.replay or "asan" in str(json.load(open(ctx.replay)).get("level")):
         asan_stream(ctx, cases)
+    # what the calls produced (FNV of all written bytes / the JPEG) must not depend on the SIMD dispatch level
+    hs = {}
+    for name, x, env in runs:
+        if name == "plain-build":
+            continue
+        lines = results[name][1].decode().split("\n")
+        for i, line in enumerate(cases):
+            if i < len(lines) and " h=" in lines[i]:
+                hs.setdefault(i, {})[name] = lines[i].rsplit(" h=", 1)[1]
+    ndiff = 0
+    for i, d in hs.items():
+        if len(set(d.values())) > 1:
+            ndiff += 1
+            if ndiff <= 3:
+                ctx.broken_tie("simd-vs-c-values", "the bytes produced differ between SIMD dispatch levels %s on: %s" % (d, cases[i]))
+    ctx.cov["value_hash_compared"] = len(hs)
+    ctx.cov["value_hash_level_differences"] = ndiff
     if mlines is not None:
         ctx.cov["traces_validated_against_impl"] = len(cases) * len(runs)
     ctx.cov["model_impl_disagreements"] = disagree
